@@ -205,7 +205,10 @@ class Env:
                           else tb.iter_cols(kw["min_col"], kw["max_col"], kw["min_row"], kw["max_row"], True) if self._iter_n % 2 == 0
                           else tb.iter_rows(values_only=True, **kw) if k == "iterrows" else tb.iter_cols(values_only=True, **kw))
                 try:
-                    res = [[p.tok(c if vo else c.value) for c in line] for line in it]     # consumed fully
+                    if (tb.num_rows - p.row_off) * (tb.num_cols - p.col_off) > 20000 and not getattr(p, "allow_huge", False):
+                        res = [["HUGE", tb.num_rows, tb.num_cols]]       # (see project_table: nothing legitimate grows a table that far)
+                    else:
+                        res = [[p.tok(c if vo else c.value) for c in line] for line in it]     # consumed fully
                 except IndexError:
                     res = [["IndexError"]]
             elif k == "cell":
@@ -294,8 +297,12 @@ class Env:
     # ---- projection
     def project_table(self, tb):
         p = self.p
-        rows = tb.rows()
         nr, nc = tb.num_rows, tb.num_cols
+        if (nr - p.row_off) * (nc - p.col_off) > 20000 and not getattr(p, "allow_huge", False):
+            # no history of the bounded models grows a table that far: a changed library did.  The table is reported as damaged
+            # (its dimensions say it all) instead of being walked - the recorded traces of a run must stay small
+            return {"name": R_TABLE.get(tb.name, "N:" + tb.name), "nr": nr - p.row_off, "nc": nc - p.col_off, "cells": [], "bad": 1}
+        rows = tb.rows()
         bad = 0
         cells = []
         if len(rows) != nr:
